@@ -492,9 +492,9 @@ pub fn stress_clocks(opts: &Opts) -> i32 {
                     let mv = decode(c);
                     let a = cur.move_new(mv)?;
                     let mut b = cur;
-                    b.move_mut(mv);
+                    let _ = b.move_mut(mv);
                     let mut into = cur;
-                    cur.move_into(mv, &mut into);
+                    let _ = cur.move_into(mv, &mut into);
                     // every legal move once, so that captures, pawn moves and castling are all applied
                     for &c2 in &legals {
                         let _ = cur.move_new(decode(c2));
